@@ -210,7 +210,7 @@ func retypingRule(c *Ctx, ruleIdent, ruleNonEmpty string) {
 				if !okE || !segsEqual([]Seg{{Elems: elems}}, []Seg{{Elems: want}}, r.st.sameVal) {
 					ok = false
 					why = fmt.Sprintf("listener receives %s, the wire message was %s", arrayStringIn(r.st, &ArrayV{Segs: []Seg{{Elems: elems}}}), arrayStringIn(r.st, &ArrayV{Segs: []Seg{{Elems: want}}}))
-				} else if !ex.allocatedSince(firstFresh, msg.Obj) || len(msg.Path) > 0 {
+				} else if len(msg.Path) > 0 || ex.isGlobalObj(msg.Obj) || (msg.Obj != data.Obj && !ex.allocatedSince(firstFresh, msg.Obj)) {
 					// the receiver may keep the message: it must not share storage with the decoder's slice or with
 					// anything that outlives the call (a buffer captured by the closure is rewritten by the next message)
 					ok = false
@@ -291,6 +291,8 @@ func checkC06(c *Ctx) {
 	liveSimulation(c, "C06.3", "C06.1", "C06.4", false)
 	retypingRule(c, "C06.4", "C06.4")
 	initialAndChunking(c, "C06.5")
+	c.Rule("C06.6", "the buffer size and sysex options given to ListenTo reach the decoder unchanged, whatever the order of the options (= C14.1): the size decides which sysex messages are dropped as oversized", 4)
+	c.include(checkC14, map[string]string{"C14.1": "C06.6"})
 }
 
 func checkC04(c *Ctx) {
